@@ -93,7 +93,7 @@ impl GenCfg {
             boundary_imm: r.chance(1, 10),
             code_after_exit: r.chance(1, 4),
             recursion: r.chance(1, 4),
-            irreducible: r.chance(1, 6),
+            irreducible: r.chance(1, 4),
             numeric_regs: r.chance(1, 4),
             tabs: r.chance(1, 4),
             comments: r.chance(1, 3),
@@ -617,6 +617,36 @@ impl Gen<'_> {
                     self.emit_label(&ld);
                 }
                 18 if self.cfg.irreducible && depth < 2 => {
+                    if self.r.chance(1, 2) {
+                        // a loop whose body is also entered from below, by a jump that links into
+                        // a scratch register which the path from above has defined
+                        let lr = *self.r.pick(&["t0", "t3", "a0", "t6"]);
+                        let lh = self.fresh("lhead");
+                        let lb = self.fresh("lbody");
+                        let le = self.fresh("lentry");
+                        let ld = self.fresh("ldone");
+                        let v = self.imm();
+                        self.emit(format!("li {}, {v}", self.reg(lr)));
+                        if !ctx.defined.contains(&lr) {
+                            ctx.defined.push(lr);
+                        }
+                        let c = self.cond(ctx, &le);
+                        self.emit(c);
+                        self.emit_label(&lh);
+                        self.arith(ctx);
+                        self.emit_label(&lb);
+                        self.arith(ctx);
+                        if self.r.chance(1, 2) {
+                            self.emit("nop".into());
+                        }
+                        let c = self.cond(ctx, &lh);
+                        self.emit(c);
+                        self.emit(format!("j {ld}"));
+                        self.emit_label(&le);
+                        self.emit(format!("jal {}, {lb}", self.reg(lr)));
+                        self.emit_label(&ld);
+                        continue;
+                    }
                     // two-entry loop: jump into the middle of a loop body
                     let la = self.fresh("irr");
                     let lb = self.fresh("irr");
